@@ -494,7 +494,8 @@ impl AdaptiveCompressor {
         let mut hasher = DefaultHasher::new();
 
         // Sample bytes from different parts of the data
-        let sample_size = (data.len() / 10).max(1).min(1000);
+        // no byte to sample in an empty payload
+        let sample_size = if data.is_empty() { 0 } else { (data.len() / 10).max(1).min(1000) };
         for i in 0..sample_size {
             let idx = (i * data.len()) / sample_size;
             data[idx].hash(&mut hasher);
